@@ -48,8 +48,18 @@ func TestVerifSearch_AuthIp(t *testing.T) {
 				hist = append(hist, step{[]string{"enable: true", "enable: true", "enable: false", ""}[rng.Intn(4)], l, rng.Intn(8) == 0})
 			}
 		}
-		// fresh state
-		IpMap = ipMap{}
+		// fresh state: empty the live map through its own API (zeroing the variable would race with the
+		// library's background grow goroutine of the previous history)
+		for IpMap.Len() > 0 {
+			var keys []interface{}
+			for kv := range IpMap.Iter() {
+				keys = append(keys, kv.Key)
+			}
+			for _, k := range keys {
+				IpMap.Del(k)
+			}
+		}
+		IpMap.enable = false
 		a := &AuthIp{path: dir, name: name}
 		wantEnable, want := false, map[string]bool{}
 		var trace []string
